@@ -58,7 +58,16 @@ def polyNF : LExpr → Poly
     | p, q => [(1, [2 * (Nat.pair (codePoly p) (codePoly q)) + 1])]
 where Nat.pair (a b : Nat) : Nat := (a + b) * (a + b + 1) / 2 + b
 
-def sameLen (a b : LExpr) : Bool := polyNF a == polyNF b
+/-- two "generic" configurations (a different small value for every name) -/
+def generic1 : Config := fun k => k % 1009 + 2
+def generic2 : Config := fun k => k % 1013 + 5
+
+/-- Equality of length expressions for all configurations: equal polynomial normal forms. The normal form is
+part of the trusted base of the table theorems (no soundness theorem `polyNF a = polyNF b → ∀ c, a.eval c = b.eval c`
+is proved); as a guard against a defect of the normaliser the two expressions must also evaluate equally at
+two generic configurations. -/
+def sameLen (a b : LExpr) : Bool :=
+  polyNF a == polyNF b && a.eval generic1 == b.eval generic1 && a.eval generic2 == b.eval generic2
 
 /-- the expression is the literal `n` after normalisation -/
 def isLit (e : LExpr) (n : Nat) : Bool := polyNF e == polyNF (.lit n)
